@@ -14,3 +14,13 @@ def nnls_outside_reliable_region(case, message, params):
         if not ("Maximum number of iterations" in message or "zero-size array" in message):
             return False
     return not c01.in_reliable_region(*c01.build(case), params)
+
+
+def fault_reaches_create_result(case, message, params):
+    """D15: Optimizer.create_result is unprotected - the fault hits one of its post-fit evaluations
+    (k within the last 2*per_eval model evaluations) or the exception escapes from create_result itself
+    (e.g. covariance SVD of a Jacobian that a non-finite fault left behind)."""
+    if case.get("kind") == "raise_region":
+        return "via create_result" in message
+    post_fit = case["k"] > case["n"] - 2 * case["per_eval"]
+    return bool(post_fit or "via create_result" in message)
